@@ -290,7 +290,10 @@ func ServeFile(ctx *RequestContext, path string) {
 			return
 		}
 	}
-	ctx.Request.SetRequestURI(path)
+	// path names a file, it is not a request target: quoted, so that what the URI
+	// parser decodes (and takes for the start of a query or a fragment) comes out as
+	// the very name that was given
+	ctx.Request.SetRequestURI(bytesconv.B2s(bytesconv.AppendQuotedPath(nil, bytesconv.S2b(path))))
 	rootFSHandler(context.Background(), ctx)
 }
 
